@@ -507,7 +507,7 @@ def _derived_views(db, chk) -> None:
             if isinstance(n, ast.Attribute) and n.attr in caches:
                 outside.append(f"{mod.name}:{q} {mod.loc(n)}")
     chk.ob(rule, "the views are private to the table class", not outside, st.loc(cls), found=outside, accepted="no access outside TraceSymbolTable")
-    chk.floor(rule, 5)
+    chk.floor(rule, 3)          # (one refresher: guard + completeness; at least one reader behind it - readers may share one accessor)
 
 
 def check_loader_semantics(db, chk, rule_assoc: str, rule_reenc: str) -> None:
